@@ -29,3 +29,15 @@ class CounterChain(WorkChain):
 
     def wc_finish(self):
         self.out('total', sum(self.ctx.l))
+
+
+class PrefixLoader(plumpy.DefaultObjectLoader):
+    """A custom object loader with its own identifier scheme: 'X|' + the default identifier."""
+
+    def load_object(self, identifier):
+        if not identifier.startswith('X|'):
+            raise ValueError("identifier `%s` is not in this loader's scheme" % identifier)
+        return super().load_object(identifier[2:])
+
+    def identify_object(self, obj):
+        return 'X|%s:%s' % (obj.__module__, obj.__name__)
